@@ -474,3 +474,106 @@ def r_bin_variance_range(ctx, db, est, ln, consts=None):
         ctx.ob("R-SIGN", "bin-variance-range:LEN=%d:bin=%d" % (ln, j), vp, R.fn_site(db, vp), ok0 and ok1,
                "variance(%d) = %s is %s" % (j, e, "a ratio of polynomials with non-negative coefficients in the counts, and so is count - variance: it lies in [0, count]"
                                             if ok0 and ok1 else "not provably within [0, count]"), d7=True)
+
+
+# ---------------------------------------------------------------------------------------------
+# R-MONO: with_const_width edges are non-decreasing by construction (sound for IEEE arithmetic:
+# rounding is monotone, so a composition of operations each monotone in the bin index is monotone)
+
+
+def mono_pair(m, se, a, b):
+    """monotonicity class of the map (index i -> residual) given the residuals a (at i) and b (at
+    i+1): 'const', 'inc', 'dec' or None.  The two trees must differ only in index literals."""
+    if a == b:
+        return "const"
+    if F.is_lit(a) and F.is_lit(b):
+        x, y = F.litval(a), F.litval(b)
+        return "inc" if y > x else ("dec" if y < x else "const")
+    if a[0] != b[0] or len(a) != len(b):
+        # `x * 1.0` is folded to `x` by the evaluator (exact identity): undo it for the comparison
+        if b[0] == "mul" and F.is_lit(b[2]) and a == b[1]:
+            return mono_pair(m, se, ("mul", a, F.ONE), b)
+        if b[0] == "mul" and F.is_lit(b[1]) and a == b[2]:
+            return mono_pair(m, se, ("mul", F.ONE, a), b)
+        if a[0] == "mul" and F.is_lit(a[2]) and b == a[1]:
+            return mono_pair(m, se, a, ("mul", b, F.ONE))
+        if b[0] == "div" and F.is_lit(b[1]) and F.is_lit(a):
+            return None
+        return None
+    k = a[0]
+    if k == "neg":
+        r = mono_pair(m, se, a[1], b[1])
+        return {"inc": "dec", "dec": "inc", "const": "const"}.get(r)
+    if k in ("add", "sub"):
+        r1 = mono_pair(m, se, a[1], b[1])
+        r2 = mono_pair(m, se, a[2], b[2])
+        if r1 is None or r2 is None:
+            return None
+        if k == "sub":
+            r2 = {"inc": "dec", "dec": "inc", "const": "const"}[r2]
+        if r1 == "const":
+            return r2
+        if r2 == "const" or r1 == r2:
+            return r1
+        return None
+    if k in ("mul", "div"):
+        r1 = mono_pair(m, se, a[1], b[1])
+        r2 = mono_pair(m, se, a[2], b[2])
+        if r1 is None or r2 is None:
+            return None
+        if r1 == "const" and r2 == "const":
+            return "const"
+        if r2 == "const":
+            s = se.of(a[2])
+            if s in ("pos", "nonneg", "zero"):
+                return r1
+            if s in ("neg", "nonpos"):
+                return {"inc": "dec", "dec": "inc"}[r1]
+            return None
+        if r1 == "const" and k == "mul":
+            s = se.of(a[1])
+            if s in ("pos", "nonneg", "zero"):
+                return r2
+            if s in ("neg", "nonpos"):
+                return {"inc": "dec", "dec": "inc"}[r2]
+        return None
+    return None
+
+
+def r_const_width_monotone(ctx, db, est, ln, consts=None):
+    from sign import SignEnv
+    fp = est.m("with_const_width", None)
+    if fp is None or ln < 2:
+        return
+    fsite = R.fn_site(db, fp)
+    m = Machine(db, [], Config(release=True, consts=consts or {}))
+    a, b = F.atom("start"), F.atom("end")
+    m.order.set_nan(a, False)
+    m.order.set_nan(b, False)
+    m.order.assume("Lt", a, b, True)
+    try:
+        h = call(m, fp, [a, b])
+    except (PathEnd, Unsupported) as e:
+        ctx.ob("R-MONO", "const-width:LEN=%d" % ln, fp, fsite, False, "with_const_width not evaluable: %s" % e, inc=True)
+        return
+    rng, bn = hist_roles(m, est)
+    edges = {nm: v for nm, v in zip(h.names, h.fields)}[rng].elems
+    se = SignEnv(m, {})
+    bad = None
+    for i in range(1, len(edges) - 1):
+        r = mono_pair(m, se, edges[i], edges[i + 1])
+        if r not in ("inc", "const"):
+            bad = (i, r)
+            break
+    # edge 0 is exactly `start`; edge 1 >= start needs step*1 >= 0
+    e1 = edges[1]
+    first_ok = edges[0] == a and se.of(F.mk("sub", e1, a)) in ("pos", "nonneg", "zero") if e1[0] != "add" else (
+        edges[0] == a and (e1[1] == a and se.of(e1[2]) in ("pos", "nonneg", "zero") or e1[2] == a and se.of(e1[1]) in ("pos", "nonneg", "zero")))
+    ok = bad is None and first_ok
+    ctx.ob("R-MONO", "const-width:non-decreasing:LEN=%d" % ln, fp, fsite, ok,
+           "every edge is obtained from the bin index by operations that are each non-decreasing in the index (IEEE rounding is monotone), "
+           "so the %d edges are non-decreasing for start < end" % len(edges) if ok else
+           "edges are not monotone by construction: %s — e.g. edge = %s; rounding can make consecutive edges decrease (find() then relies on an unsorted array)" % (
+               "the bin index enters edge %d through operations of opposite monotonicity" % bad[0] if bad else "edge 1 is not provably >= start",
+               F.show(edges[min(2, len(edges) - 1)])[:160]),
+           sample={"edge2": F.show(edges[min(2, len(edges) - 1)])[:200]})
